@@ -23,7 +23,7 @@ from .c01 import canon_stack, rand_prefix, with_prefix
 
 PID = "C15"
 RULE = ("seeded random typed programs (depth <= 3) plain or behind a 2-3-yield prefix; for each, every layout variant "
-        "(6 whitespace/comment fillers, redundant parentheses, 3 integer spellings, 4 escape spellings, string splitting, "
+        "(6 whitespace/comment fillers, redundant parentheses, empty expressions `()` sprinkled between statements, 3 integer spellings, 4 escape spellings, string splitting, "
         "sugar off), every single-position structural rewrite (E? / if / ?(E) / !(E) / infix / raw string), and the "
         "unsimplified build.  Non-trivial: the rewrite position is nested inside another construct, or the simplifier "
         "changed the tree (printed trees differ), or a comment was inserted.  Distinct by (program, variant).")
@@ -41,6 +41,20 @@ WS = [
     lambda i, sp=0: (" # hash %d\n" % i) if sp else (" # hash ) ] \" %d\n" % i),
     lambda i: (" ", "\n", " /**/ ", " #\n", " //\n\t")[i % 5],
 ]
+
+
+def nop_fill(r, k):
+    """Spellings of the empty expression to insert at one gap of a concatenation."""
+    x = r.random()
+    if x < (0.45, 0.25)[k]:
+        return []
+    if x < 0.7:
+        return ["()"]
+    if x < 0.85:
+        return ["()", "()"]
+    if x < 0.93:
+        return ["(() ())"]
+    return ["()", "( )", "(())"]
 
 
 def stack_effect_ok_for_capture(node):
@@ -153,12 +167,21 @@ def work(task):
                 variants.append(("string:split", render(node, split=lambda j: rnd.random() < 0.5,
                                                         splitws=rnd.choice([" ", "", "\n", "\t \n"])), True, False))
                 variants.append(("sugar:off", render(node, sugar=False), True, False))
+                # the empty expression is the identity: sprinkle it between statements (1-3 per gap, also nested)
+                for k in (0, 1):
+                    nr = random.Random(rnd.random())
+                    variants.append(("layout:nops%d" % k, render(node, nops=lambda nr=nr, k=k: nop_fill(nr, k)), True, False))
                 for name, vt, ordered, cmt in variants:
                     if vt == text:
                         continue
                     r1 = run(drv, vt)
                     why = same(r0, r1, ordered)
-                    ev.case(key=(text, name), nontrivial=cmt or name in ("string:split", "sugar:off"))
+                    if not why and name.startswith("layout:nops"):
+                        # here the simplifier has NOPs to remove: the variant must also agree with itself unsimplified
+                        why = same(r1, run(drv, vt, flags=1), True)
+                        if why:
+                            why = "with vs without tree::simplify: " + why
+                    ev.case(key=(text, name), nontrivial=cmt or name in ("string:split", "sugar:off") or name.startswith("layout:nops"))
                     ev.label(name)
                     if why:
                         ev.violations.append({"property": PID, "rule": name, "query": text, "variant": vt, "reason": "%s: %s" % (name, why),
@@ -227,7 +250,7 @@ def main(tier, seed):
     known_findings(ev)
     ev.extra["programs"] = n
     need = ["rewrite:E?=(E,)", "rewrite:if=alt", "rewrite:?(E)=([E]!=[])", "rewrite:infix=?(let)", "rewrite:raw-string",
-            "simplify:fired", "string:split", "sugar:off", "layout:ws4"]
+            "simplify:fired", "string:split", "sugar:off", "layout:ws4", "layout:nops0", "layout:nops1"]
     return finish(PID, tier, seed, ev, RULE, t0,
                   assumptions=["equivalences as stated in doc/syntax.rst; ?(E) vs ([E] != []) only where E ends by pushing a value",
                                "string literals nested inside %( %) avoid backslash and quote characters (the embedded scanner tracks quotes textually)"],
